@@ -30,6 +30,10 @@ structure St where
   distinct : HashMap String Nat := {}
   samples : HashMap String String := {}
   parseErrors : Nat := 0
+  /-- (dels, adds) of every applied block, newest first (parallel to `stack`) -/
+  blocks : List (List H256 × List H256) := []
+  /-- the leaves a light client's cached proof is expected to hold (C07/C08) -/
+  cache : List H256 := []
   /-- free-form per-family state (used by later families) -/
   extra : HashMap String String := {}
 
